@@ -571,6 +571,8 @@ pub fn run(tier: Tier) -> i32 {
         ("reuse-template-content/shape", r##"<svg><specs><rect id="t" wh="20">$m and {{1+2}} \$m</rect></specs><reuse href="#t" m="hello"/></svg>"##, "hello and 3 $m", Some((10., 10.)), &[], &[]),
         ("reuse-template-content/text", r##"<svg><specs><text id="t" xy="3 4">$m</text></specs><reuse href="#t" m="hello"/></svg>"##, "hello", Some((3., 4.)), &[], &[]),
         ("defaults/text-dx-vs-own-text-dxy", r##"<svg><defaults><rect text-dx="2"/></defaults><rect wh="20" text-loc="tl" text-dxy="5 5" text="x"/></svg>"##, "x", Some((6., 6.)), &[], &[]),
+        ("shape-with-child/blank-between-pieces", r##"<svg><rect xy="10 20" wh="30 10">a<title>t</title> <![CDATA[b]]></rect></svg>"##, "a b", Some((25., 25.)), &[], &[]),
+        ("shape-with-child/blank-between-cdata-pieces", r##"<svg><rect xy="10 20" wh="30 10"><![CDATA[a]]> <title>t</title><![CDATA[b]]></rect></svg>"##, "a b", Some((25., 25.)), &[], &[]),
         ("text-style/keeps-style", r##"<svg><text xy="1 2" style="fill:red" text-style="font-weight:bold" text="hi"/></svg>"##, "hi", Some((1., 2.)), &[], &[("style", "fill:red"), ("style", "font-weight:bold")]),
     ];
     let st = run_space(scenarios.len(), |i| {
